@@ -49,6 +49,7 @@ KEY_KILL = "callee-capture-write-kills-store"
 KEY_IMPURE = "callee-capture-write-not-impure"
 KEY_TYPEMIS = "pruned-stmt-can-raise-type-mismatch"
 KEY_BITSET = "liveness-bitset-index-oob"
+KEY_READ_AFTER_WRITE = "callee-capture-read-after-own-write"
 
 # fixed corpus: the defects this property's machinery confirmed (all repaired in /repo; they stay here so a
 # regression is reported again), plus shapes around them
@@ -61,6 +62,10 @@ CORPUS = [
     (KEY_TYPEMIS + "/cond", 'do f(p) start\n  if to say (p) start return 1 end\n  return 0\nend\nmake u get f(3)\nshout("@1@" add to_string(1))\n'),
     (KEY_TYPEMIS + "/or", 'make u get null or 5\nshout("@1@" add to_string(1))\n'),
     (KEY_BITSET, "make a get 1\ndo g() start\n" + "".join("  make l%d get 0\n" % i for i in range(70)) + "  return 0\nend\nmake b get 2\nshout(\"@1@\" add to_string(a add b))\n"),
+    (KEY_READ_AFTER_WRITE, 'make x get "one"\ndo twice() start return "{x}{x}" end\nx get "five"\nif to say (true) start\n  x get twice()\n  shout("@1@" add to_string(x))\nend\n'),
+    (KEY_READ_AFTER_WRITE + "/loop", 'make x get 1\ndo rd() start return x add 1 end\nx get 5\nmake i get 0\njasi (i small pass 2) start\n  x get rd()\n  i get i add 1\nend\nshout("@1@" add to_string(x))\n'),
+    (KEY_READ_AFTER_WRITE + "/push", 'make a get [1]\ndo n() start return a.len() end\na get [1, 2, 3]\nif to say (true) start\n  a.push(n())\nend\nshout("@1@" add to_string(a))\n'),
+    ("self-update-next-block", 'make x get 1\nx get 4\nif to say (true) start\n  x get x times 10\nend\nshout("@1@" add to_string(x))\nmake items get [1]\nitems get [2]\nif to say (true) start\n  items.push(3)\nend\nshout("@2@" add to_string(items))\n'),
     ("hoisted-after-return", 'do f() start\n  g()\n  return 1\n  do g() start\n    shout("@1@" add to_string(7))\n  end\n  shout("@2@" add to_string(8))\nend\nshout("@3@" add to_string(f()))\n'),
     ("keeps-declaration", 'make x get 1\nx get 2\nshout("@1@" add to_string(x))\n'),
     ("never-read-reassigned", 'make u get 1 add 2\nu get "%1%a"\nmake x get 5\nshout("@1@" add to_string(x))\n'),
@@ -80,7 +85,9 @@ class C03Gen(langgen.Gen):
     TEMPLATES = ["cond_capture_write", "capture_write_unused_result", "capture_read", "dead_only_call",
                  "trap_dead_store", "redeclare", "loop_carried", "dyn_param_dead", "retype", "cond_param",
                  "overwrite", "shadow_block", "loop_ctl_dead", "if_else_return", "unused_cycle",
-                 "hoisted_in_dead", "never_read", "never_read", "overwrite", "cond_capture_write", "many_locals"]
+                 "hoisted_in_dead", "never_read", "never_read", "overwrite", "cond_capture_write", "many_locals",
+                 "self_update_via_callee", "self_update_via_callee", "self_update_via_callee", "self_update_direct",
+                 "self_update_direct", "hoisted_after_ctl"]
 
     def __init__(self, rng, opts=None):
         super().__init__(rng, opts)
@@ -417,6 +424,122 @@ class C03Gen(langgen.Gen):
             if r.random() < 0.3:
                 lines.append("%s%s get %s" % (pad, u, r.choice([self.num_lit(), self.tagged("z")])))
         lines.append("%sshout(%s)" % (pad, self.lit(NUM)))
+        return lines
+
+    # ---- a statement that assigns x while a callee it calls reads the captured x (`x get f()`,
+    #      `x get x add f()`, `a.push(f())`): the earlier store to x sits in a preceding basic block
+    def t_self_update_via_callee(self, ind):
+        if not self.can_fn():
+            return None
+        r, pad = self.r, "  " * ind
+        lines = []
+        arr = r.random() < 0.3
+        f = self.fresh("f")
+        if arr:
+            x = self.fresh("v")
+            lines.append("%smake %s get [%s]" % (pad, x, self.lit(STR)))
+            self.declare(x, ARR, elem=STR, minlen=1)
+            ret = r.choice(["%s.len()" % x, "%s[0]" % x, '"{%s}"' % x, "%s" % x])
+            store = "%s get [%s, %s]" % (x, self.lit(STR), self.lit(STR))
+            upd = r.choice(["%s.push(%s())" % (x, f), "%s get [%s(), %s()]" % (x, f, f), "%s[0] get %s()" % (x, f)])
+        else:
+            ty = r.choice([STR, STR, NUM])
+            xv = self.newvar(ty, pad, lines)
+            x = xv.name
+            if ty == STR:
+                ret = r.choice(['"{%s}{%s}"' % (x, x), '%s add "!"' % x, '"<{%s}>"' % x, "[%s]" % x, "%s.len()" % x])
+            else:
+                ret = r.choice(["%s add 1" % x, "%s times 2" % x, '"{%s}"' % x, "[%s, %s]" % (x, x)])
+            store = "%s get %s" % (x, self.lit(ty))
+            if ret.startswith("[") or ".len()" in ret or (ty == NUM and ret.startswith('"')):
+                upd = "%s get %s()" % (x, f)            # the variable changes type: allowed
+                xv.ty = "dyn"
+            else:
+                upd = r.choice(["%s get %s()" % (x, f), "%s get %s()" % (x, f), "%s get %s add %s()" % (x, x, f),
+                                "%s get %s() add %s" % (x, f, x)])
+        body = ["return %s" % ret]
+        if r.random() < 0.3:
+            g = self.fresh("f")
+            lines += ["%sdo %s() start" % (pad, g), "%s  return %s" % (pad, ret), "%send" % pad]
+            body = ["return %s()" % g]
+        lines += ["%sdo %s() start" % (pad, f)] + [pad + "  " + b for b in body] + ["%send" % pad]
+        lines.append(pad + store)
+        form = r.randrange(6)
+        if form == 0:
+            lines += ["%sif to say (%s) start" % (pad, r.choice(["true", "true", "false"])), "%s  %s" % (pad, upd), "%s  shout(%s)" % (pad, x), "%send" % pad]
+        elif form == 1 and self.loop_depth < 2:
+            i = self.fresh("v")
+            lines += ["%smake %s get 0" % (pad, i), "%sjasi (%s small pass %d) start" % (pad, i, r.randint(1, 3)),
+                      "%s  %s" % (pad, upd), "%s  %s get %s add 1" % (pad, i, i), "%send" % pad]
+            self.declare(i, NUM)
+        elif form == 2:
+            lines += ["%sif to say (%s) start shout(%s) end" % (pad, r.choice(["true", "false"]), self.lit(NUM)), pad + upd]
+        elif form == 3 and self.loop_depth < 2:
+            # the store at the end of the loop body, the self-update at the start of the next iteration
+            i = self.fresh("v")
+            lines += ["%smake %s get 0" % (pad, i), "%sjasi (%s small pass %d) start" % (pad, i, r.randint(2, 3)),
+                      "%s  %s" % (pad, upd), "%s  shout(%s)" % (pad, x), "%s  %s" % (pad, store),
+                      "%s  %s get %s add 1" % (pad, i, i), "%send" % pad]
+            self.declare(i, NUM)
+        elif form == 4:
+            lines += ["%sif to say (%s) start" % (pad, r.choice(["true", "false"])), "%s  shout(%s)" % (pad, self.lit(NUM)), "%send" % pad,
+                      "%sif not so start" % pad, "%s  %s" % (pad, upd), "%send" % pad]
+        else:
+            lines += ["%sstart" % pad, "%s  if to say (true) start %s end" % (pad, upd), "%send" % pad]
+        lines.append("%sshout(%s)" % (pad, x))
+        return lines
+
+    # ---- a statement that reads and writes the same variable, the earlier store in a preceding block
+    def t_self_update_direct(self, ind):
+        r, pad = self.r, "  " * ind
+        lines = []
+        if r.random() < 0.35:
+            x = self.fresh("v")
+            lines.append("%smake %s get [%s]" % (pad, x, self.lit(NUM)))
+            self.declare(x, ARR, elem=NUM, minlen=1)
+            store = "%s get [%s, %s]" % (x, self.lit(NUM), self.lit(NUM))
+            upd = r.choice(["%s.push(%s)" % (x, self.lit(NUM)), "%s[0] get %s" % (x, self.lit(NUM)), "%s.reverse()" % x,
+                            "%s get [%s[0], %s.len()]" % (x, x, x)])
+        else:
+            ty = r.choice([NUM, STR])
+            x = self.newvar(ty, pad, lines).name
+            store = "%s get %s" % (x, self.lit(ty))
+            upd = r.choice(["%s get %s times 10", "%s get %s add 1", "%s get 1 add %s"]) % (x, x) if ty == NUM else \
+                r.choice(['%s get %s add "!"', '%s get "<{%s}>"', "%s get %s.trim()"]) % (x, x)
+        lines.append(pad + store)
+        form = r.randrange(4)
+        if form == 0:
+            lines += ["%sif to say (%s) start" % (pad, r.choice(["true", "false"])), "%s  %s" % (pad, upd), "%send" % pad]
+        elif form == 1 and self.loop_depth < 2:
+            i = self.fresh("v")
+            lines += ["%smake %s get 0" % (pad, i), "%sjasi (%s small pass %d) start" % (pad, i, r.randint(1, 3)),
+                      "%s  %s" % (pad, upd), "%s  %s get %s add 1" % (pad, i, i), "%send" % pad]
+            self.declare(i, NUM)
+        elif form == 2:
+            lines += ["%sif to say (%s) start shout(%s) end" % (pad, r.choice(["true", "false"]), self.lit(NUM)), pad + upd]
+        else:
+            lines += ["%sif to say (false) start shout(%s) end" % (pad, self.lit(NUM)), "%sif not so start" % pad, "%s  %s" % (pad, upd), "%send" % pad]
+        lines.append("%sshout(%s)" % (pad, x))
+        return lines
+
+    # ---- a helper defined after an unconditional return / comot / next but called from live code
+    def t_hoisted_after_ctl(self, ind):
+        if not self.can_fn():
+            return None
+        r, pad = self.r, "  " * ind
+        g = self.fresh("f")
+        helper = ["do %s(q) start" % g, "  return %s" % r.choice(['"<{q}>"', "[q]", "q"]), "end"]
+        if self.loop_depth < 2 and r.random() < 0.5:
+            i = self.fresh("v")
+            lines = ["%smake %s get 0" % (pad, i), "%sjasi (%s small pass %d) start" % (pad, i, r.randint(1, 2)),
+                     "%s  %s get %s add 1" % (pad, i, i), "%s  shout(%s(%s))" % (pad, g, self.lit(STR)), "%s  %s" % (pad, r.choice(["comot", "next"]))]
+            lines += [pad + "  " + h for h in helper] + ["%send" % pad]
+            self.declare(i, NUM)
+            return lines
+        f = self.fresh("f")
+        lines = ["%sdo %s() start" % (pad, f), "%s  make w get %s(%s)" % (pad, g, self.lit(STR)), "%s  if to say (true) start return w end" % pad if r.random() < 0.3 else "%s  shout(w)" % pad,
+                 "%s  return %s(%s)" % (pad, g, self.lit(NUM))]
+        lines += [pad + "  " + h for h in helper] + ["%send" % pad, "%sshout(%s())" % (pad, f)]
         return lines
 
     # ---- more than 64 locals of a nested function interleaved with the enclosing function's locals
@@ -943,7 +1066,7 @@ def correspond(env, searching=False, model=True):
     corpus = [("corpus/%d/%s" % (i, k), s) for i, (k, s) in enumerate(CORPUS)]
     keys = {}
     for (cid, _), (k, _) in zip(corpus, CORPUS):
-        if k.split("/")[0] in (KEY_KILL, KEY_IMPURE, KEY_TYPEMIS, KEY_BITSET):
+        if k.split("/")[0] in (KEY_KILL, KEY_IMPURE, KEY_TYPEMIS, KEY_BITSET, KEY_READ_AFTER_WRITE):
             keys[cid] = k.split("/")[0]
     cdir = os.path.join(common.VERIF, "gen", "corpus", "C03")
     if os.path.isdir(cdir):
